@@ -65,12 +65,17 @@ Qed.
 (* truncating division and remainder *)
 Lemma div_mod_spec t a b q r :
   tmin t <= a <= tmax t -> tmin t <= b <= tmax t ->
+  ~ (signed t = true /\ a = tmin t /\ b = -1) ->
   arith Div t a b = Some q -> arith Mod t a b = Some r ->
   a = q * b + r /\ Z.abs r < Z.abs b /\ (r = 0 \/ Z.sgn r = Z.sgn a) /\ q = Z.quot a b /\ r = Z.rem a b.
 Proof.
-  intros Ha Hb. unfold arith.
-  destruct ((b =? 0) || (signed t && (a =? tmin t) && (b =? -1))) eqn:E; [discriminate|].
-  apply orb_false_iff in E as [E1 E2]. apply Z.eqb_neq in E1.
+  intros Ha Hb Hno. unfold arith.
+  destruct ((b =? 0) || div_traps t a b) eqn:E; [discriminate|].
+  apply orb_false_iff in E as [E1 _]. apply Z.eqb_neq in E1.
+  assert (E2 : signed t && (a =? tmin t) && (b =? -1) = false).
+  { destruct (signed t) eqn:Sg; [|reflexivity]. cbn [andb].
+    destruct (a =? tmin t) eqn:Ea; [|reflexivity]. destruct (b =? -1) eqn:Eb; [|reflexivity].
+    exfalso. apply Hno. apply Z.eqb_eq in Ea, Eb. auto. }
   intros Hq Hr. inversion Hq; inversion Hr; subst; clear Hq Hr.
   assert (Hqr : tmin t <= Z.quot a b <= tmax t).
   { pose proof (Z.quot_abs a b E1) as Habs.
@@ -106,3 +111,9 @@ Proof.
   destruct (Z.eq_dec (Z.rem a b) 0); [left; assumption|right].
   apply Z.rem_sign_nz; assumption.
 Qed.
+
+(* the one overflowing quotient: for the 8- and 16-bit signed types MIN / -1 wraps to MIN and MIN % -1 is 0 *)
+Lemma div_overflow_wraps t :
+  signed t = true -> bits t < 32 ->
+  arith Div t (tmin t) (-1) = Some (tmin t) /\ arith Mod t (tmin t) (-1) = Some 0.
+Proof. destruct t; cbn; intros; try discriminate; try lia; split; reflexivity. Qed.
